@@ -303,6 +303,7 @@ func checkC02(c *core.Ctx) error {
 	checkOwnGetters(c, pkg)
 	checkStablePrimitives(c, pkg)
 	checkNarrowReads(c, pkg)
+	checkConstantWidth(c, pkg)
 	return nil
 }
 
@@ -781,4 +782,51 @@ func isScalarOperandType(t types.Type, own string) bool {
 		}
 	}
 	return false
+}
+
+// checkConstantWidth (C02.R10): a method of scalar type T that needs a constant (1, 2, the length of a vector) builds it in
+// T's own constant type or in ConstFloat64. A constant built in a narrower constant type (ConstInt8 inside Int16.Vmean)
+// wraps or rounds before the operation: Int16.Vmean over 200 elements divides by -56.
+func checkConstantWidth(c *core.Ctx, pkg *packages.Package) {
+	c.Rule("C02.R10", "constants built inside a method of scalar type T have T's own constant type or ConstFloat64", 50)
+	info := pkg.TypesInfo
+	partner := map[string]string{"Int8": "ConstInt8", "Int16": "ConstInt16", "Int32": "ConstInt32", "Int64": "ConstInt64", "Int": "ConstInt",
+		"Float32": "ConstFloat32", "Float64": "ConstFloat64", "Real32": "ConstFloat32", "Real64": "ConstFloat64"}
+	core.EachFunc(pkg, func(_ *ast.File, fd *ast.FuncDecl) {
+		if fd.Recv == nil {
+			return
+		}
+		T := core.RecvTypeName(fd)
+		own, ok := partner[T]
+		if !ok {
+			return
+		}
+		cons := c.FuncName(pkg, fd)
+		seen := map[string]bool{}
+		ast.Inspect(fd.Body, func(n ast.Node) bool {
+			ce, ok := n.(*ast.CallExpr)
+			if !ok || len(ce.Args) != 1 {
+				return true
+			}
+			tv, ok := info.Types[ce.Fun]
+			if !ok || !tv.IsType() {
+				return true
+			}
+			nt, ok := tv.Type.(*types.Named)
+			if !ok || !strings.HasPrefix(nt.Obj().Name(), "Const") {
+				return true
+			}
+			name := nt.Obj().Name()
+			if _, isScalar := partner[strings.TrimPrefix(name, "Const")]; !isScalar {
+				return true
+			}
+			if seen[name] {
+				return true
+			}
+			seen[name] = true
+			c.Check(name == own || name == "ConstFloat64", "C02.R10", cons, "constant type "+name, ce.Pos(),
+				"a method of "+T+" builds a constant as "+name+"; its own constant type is "+own+": a narrower constant wraps or rounds the value before the operation (a vector length of 200 becomes -56 in ConstInt8)")
+			return true
+		})
+	})
 }
